@@ -556,3 +556,55 @@ def rule_strip_member(ctx):
                 r.skip(label, f"origin of `{name}` not classified")
     r.floor(n, 15, "strip_exponent call sites")
     return r
+
+
+def rule_gauge_record_agree(ctx):
+    r = RuleResult(
+        "gauge-record-agree",
+        "gauge_simple_insert returns, for later removal, a record of what it multiplied into the tensors: in each of its loops the "
+        "vector handed to multiply_index_diagonal_ is the very local (or its inverse, under return_gauges='inverse') that is stored in "
+        "the record — a transformed copy on one side only (conditioning, powers, smudging) makes insert-then-remove change the tensors",
+    )
+    f = ctx.prog.func("quimb.tensor.tensor_core", "TensorNetwork.gauge_simple_insert")
+    if f is None:
+        raise AnalysisError("gauge-record-agree: TensorNetwork.gauge_simple_insert not found")
+    n = 0
+    for lp in ast.walk(f.node):
+        if not isinstance(lp, ast.For):
+            continue
+        applied = [c for c in ast.walk(lp) if isinstance(c, ast.Call) and isinstance(c.func, ast.Attribute) and c.func.attr.rstrip("_") == "multiply_index_diagonal" and len(c.args) >= 2]
+        records = [c for c in ast.walk(lp) if isinstance(c, ast.Call) and isinstance(c.func, ast.Attribute) and c.func.attr == "append" and c.args
+                   and isinstance(c.args[0], ast.Tuple) and len(c.args[0].elts) == 3]
+        if not applied or not records:
+            continue
+        n += 1
+        # names the recorded vector is built from (through one local: gr = g if ... else g ** -1)
+        base = set()
+        for rc in records:
+            e = rc.args[0].elts[2]
+            exprs = [e]
+            if isinstance(e, ast.Name):
+                exprs = [a.value for a in ast.walk(lp) if isinstance(a, ast.Assign) and any(isinstance(t, ast.Name) and t.id == e.id for t in a.targets)] or [e]
+            for x in exprs:
+                base |= {y.id for y in ast.walk(x) if isinstance(y, ast.Name)}
+        where = f"{f.module.relpath}:{lp.lineno}"
+        q = f"TensorNetwork.gauge_simple_insert[loop@{src_of(lp.iter)[:30]}]"
+        bad = [c for c in applied if not (isinstance(c.args[1], ast.Name) and c.args[1].id in base)]
+        # the recorded local must not be re-bound between an application and the record
+        rebound = []
+        for c in applied:
+            if isinstance(c.args[1], ast.Name):
+                for a in ast.walk(lp):
+                    if isinstance(a, ast.Assign) and any(isinstance(t, ast.Name) and t.id == c.args[1].id for t in a.targets) and c.lineno < a.lineno <= max(rc.lineno for rc in records):
+                        rebound.append(a)
+        if bad:
+            r.bad(Finding("gauge-record-agree", "TensorNetwork.gauge_simple_insert",
+                          f"`{src_of(bad[0])[:60]}` multiplies `{src_of(bad[0].args[1])[:30]}` into the tensor while the record for removal stores {sorted(base)}: "
+                          "gauge_simple_remove / gauge_simple_temp no longer undo what was inserted", where=f"{f.module.relpath}:{bad[0].lineno}", operand="applied-vs-recorded"))
+        elif rebound:
+            r.bad(Finding("gauge-record-agree", "TensorNetwork.gauge_simple_insert",
+                          f"`{src_of(rebound[0])[:50]}` re-binds the gauge between its application and its record", where=f"{f.module.relpath}:{rebound[0].lineno}", operand="rebound"))
+        else:
+            r.ok(q, sample={"loop": src_of(lp.iter)[:30], "applied": sorted({src_of(c.args[1]) for c in applied}), "recorded from": sorted(base)})
+    r.floor(n, 2, "insert loops of gauge_simple_insert")
+    return r
